@@ -4,12 +4,12 @@
 W=$1; P=$2; shift 2
 cd $W || exit 2
 L=$W/_mutation/confirm.log; : > $L
-git checkout -q -- . ; git clean -qfd -e _mutation -e target
+git reset -q --hard HEAD ; git clean -qfd -e _mutation -e target
 git apply _mutation/patch.diff && git apply _mutation/demo.diff || { echo "apply failed" | tee -a $L; exit 2; }
 CARGO_NET_OFFLINE=true cargo test -p saito-core --offline "$@" -- --test-threads 1 > $W/_mutation/confirm_demo_with.log 2>&1; a=$?
 git apply -R _mutation/patch.diff
 CARGO_NET_OFFLINE=true cargo test -p saito-core --offline "$@" -- --test-threads 1 > $W/_mutation/confirm_demo_without.log 2>&1; b=$?
-git checkout -q -- . ; git clean -qfd -e _mutation -e target
+git reset -q --hard HEAD ; git clean -qfd -e _mutation -e target
 git apply _mutation/patch.diff
 CARGO_NET_OFFLINE=true cargo test -p saito-core --offline -- --test-threads 8 > $W/_mutation/confirm_suite_with.log 2>&1; c=$?
 echo "$P demo_with_change_exit=$a demo_without_change_exit=$b suite_with_change_exit=$c $(grep -h 'test result' $W/_mutation/confirm_suite_with.log | head -1)" | tee -a $L
